@@ -191,6 +191,35 @@ func c04installExit() {
 	}
 }
 
+// c04report hands an abnormal end of a run ("panic:...", "error:...") to c04await.
+func c04report(what string) {
+	select {
+	case c04fatalCh <- what:
+	default:
+	}
+}
+
+// c04recover is deferred in every goroutine of the harness that calls into the tree under test (writers,
+// Push, Next, constructors of the input): a panic there is an outcome of the run, reported like a fatal,
+// never the death of the shard.
+func c04recover() {
+	if p := recover(); p != nil {
+		if e, ok := p.(*log.Entry); ok {
+			c04report("panic:" + e.Message)
+		} else {
+			c04report(fmt.Sprintf("panic:%v", p))
+		}
+	}
+}
+
+// c04problem: what c04await reports for a message of c04fatalCh.
+func c04problem(f string) string {
+	if strings.HasPrefix(f, "panic:") || strings.HasPrefix(f, "error:") {
+		return f
+	}
+	return "fatal:" + f
+}
+
 // ---------------------------------------------------------------- input construction
 
 var c04bases = []string{"acgt", "ttgca", "gattaca", "cc", "atatatat", "g", "tgca", "caggt", "aac", "ggtt", "acacgt", "t", "cgcg", "tagc"}
@@ -367,7 +396,7 @@ func c04await(done chan struct{}) (problem string) {
 		case <-done:
 			finished = true
 		case f := <-c04fatalCh:
-			return "fatal:" + f
+			return c04problem(f)
 		case <-time.After(50 * time.Millisecond):
 		}
 	}
@@ -376,7 +405,7 @@ func c04await(done chan struct{}) (problem string) {
 	}
 	select { // a fatal in a goroutine that did not prevent termination
 	case f := <-c04fatalCh:
-		return "fatal:" + f
+		return c04problem(f)
 	default:
 	}
 	return ""
@@ -385,7 +414,6 @@ func c04await(done chan struct{}) (problem string) {
 // c04run pushes the batches of c in arrival order through the real writer and returns what the
 // sink saw at the time WaitForLastPipe returned. problem != "" : hang / fatal (run unusable).
 func c04run(c c04case, mode string) (obs c04obs, problem string) {
-	batches, _, _ := c04batches(c)
 	sink := &c04sink{}
 	opts := []WithOption{OptionsParallelWorkers(1)}
 	if c04closing(mode) {
@@ -396,10 +424,12 @@ func c04run(c c04case, mode string) (obs c04obs, problem string) {
 	if c04compressed(mode) {
 		opts = append(opts, OptionsCompressed(true))
 	}
-	opts = append(opts, c04caseOpts(c)...)
 
 	done := make(chan struct{})
 	go func() {
+		defer c04recover()
+		batches, _, _ := c04batches(c)
+		opts = append(opts, c04caseOpts(c)...)
 		it := obiiter.MakeIBioSequence()
 		it.Add(1)
 		go it.WaitAndClose()
@@ -410,6 +440,7 @@ func c04run(c c04case, mode string) (obs c04obs, problem string) {
 			// WriteSequence blocks on the first batch before it chooses the format: feed from a
 			// second goroutine (still ONE pusher, so the arrival order is the push order).
 			go func() {
+				defer c04recover()
 				for _, o := range c.Arrival {
 					it.Push(batches[o])
 				}
@@ -417,7 +448,8 @@ func c04run(c c04case, mode string) (obs c04obs, problem string) {
 			}()
 			out, err = WriteSequence(it, sink, opts...)
 			if err != nil {
-				panic(err)
+				c04report("error:the writer returns the error " + err.Error())
+				return
 			}
 			for out.Next() {
 			}
@@ -431,6 +463,7 @@ func c04run(c c04case, mode string) (obs c04obs, problem string) {
 			// second goroutine (still ONE pusher, so the arrival order is the push order)
 			fedAhead = true
 			go func() {
+				defer c04recover()
 				for _, o := range c.Arrival {
 					it.Push(batches[o])
 				}
@@ -452,9 +485,11 @@ func c04run(c c04case, mode string) (obs c04obs, problem string) {
 			panic("c04: unknown writer " + c.Writer)
 		}
 		if err != nil {
-			panic(err)
+			c04report("error:the writer returns the error " + err.Error())
+			return
 		}
 		go func() { // consumer of the pass-through iterator
+			defer c04recover()
 			for out.Next() {
 			}
 		}()
@@ -513,9 +548,10 @@ func c04openOn(paths ...string) int {
 }
 
 type c04fileObs struct {
-	r1, r2   []byte
-	r2exists bool
-	open     int
+	r1, r2    []byte
+	r1missing string // "" or why the output file cannot be read after the run
+	r2exists  bool
+	open      int
 }
 
 // c04runFile drives Write*ToFile on real files: Pre = fresh (no file), overwrite (an existing,
@@ -543,19 +579,20 @@ func c04runFile(c c04case) (obs c04fileObs, problem string) {
 			}
 		}
 	}
-	batches, _, _ := c04batches(c)
 	workers := 1
 	if c.Workers > 1 {
 		workers = c.Workers
 	}
-	opts := []WithOption{OptionsParallelWorkers(workers), OptionsAppendFile(c.Pre == "append")}
-	if c.Paired {
-		opts = append(opts, WritePairedReadsTo(fn2))
-	}
-	opts = append(opts, c04caseOpts(c)...)
 
 	done := make(chan struct{})
 	go func() {
+		defer c04recover()
+		batches, _, _ := c04batches(c)
+		opts := []WithOption{OptionsParallelWorkers(workers), OptionsAppendFile(c.Pre == "append")}
+		if c.Paired {
+			opts = append(opts, WritePairedReadsTo(fn2))
+		}
+		opts = append(opts, c04caseOpts(c)...)
 		it := obiiter.MakeIBioSequence()
 		it.Add(1)
 		go it.WaitAndClose()
@@ -566,6 +603,7 @@ func c04runFile(c c04case) (obs c04fileObs, problem string) {
 		// (ONE pusher, one formatting worker per writer: the arrival order is the push order, for
 		// the second writer of a paired output as well)
 		go func() {
+			defer c04recover()
 			for _, o := range c.Arrival {
 				it.Push(batches[o])
 			}
@@ -588,7 +626,8 @@ func c04runFile(c c04case) (obs c04fileObs, problem string) {
 			panic("c04: no file entry point for " + c.Writer)
 		}
 		if err != nil {
-			panic(err)
+			c04report("error:the entry point returns the error " + err.Error())
+			return
 		}
 		for out.Next() {
 		}
@@ -601,7 +640,7 @@ func c04runFile(c c04case) (obs c04fileObs, problem string) {
 	obs.open = c04openOn(fn1, fn2)
 	var err error
 	if obs.r1, err = os.ReadFile(fn1); err != nil {
-		panic(err)
+		obs.r1missing = err.Error() // the entry point did not leave a readable file: a verdict on the tree
 	}
 	if obs.r2, err = os.ReadFile(fn2); err == nil {
 		obs.r2exists = true
@@ -737,13 +776,61 @@ func c04content(c c04case, text []byte, mate bool) (string, string) {
 	return f0, d0
 }
 
+// c04guarded runs f (calls into the tree under test made for the reference side of the oracle) in a goroutine
+// of its own: a panic or a log.Fatal in there is returned ("" when f completed), it does not end the shard.
+func c04guarded(f func()) (crash string) {
+	done := make(chan struct{})
+	go func() {
+		defer close(done)
+		defer func() {
+			if r := recover(); r != nil {
+				if e, ok := r.(*log.Entry); ok {
+					crash = "panic: " + e.Message
+				} else {
+					crash = fmt.Sprintf("panic: %v", r)
+				}
+			}
+		}()
+		f()
+	}()
+	<-done
+	select {
+	case f := <-c04fatalCh:
+		crash = "fatal: " + f
+	default:
+	}
+	return
+}
+
 func c04contentAs(c c04case, text []byte, mate bool, format string) (string, string) {
-	batches, want, mateIds := c04batches(c)
-	if mate {
-		want = mateIds
-		for i := range batches {
-			batches[i] = batches[i].PairedWith()
+	var want []string
+	var ref bytes.Buffer // fasta / fastq: the batches formatted one by one in increasing batch number
+	if crash := c04guarded(func() {
+		var batches []obiiter.BioSequenceBatch
+		var mateIds []string
+		batches, want, mateIds = c04batches(c)
+		if mate {
+			want = mateIds
+			for i := range batches {
+				batches[i] = batches[i].PairedWith()
+			}
 		}
+		if format == "fasta" || format == "fastq" {
+			opt := MakeOptions(nil)
+			for _, b := range batches {
+				if format == "fasta" {
+					ref.Write(FormatFastaBatch(b, opt.FormatFastSeqHeader(), c.Skip).Bytes())
+				} else {
+					ref.Write(FormatFastqBatch(b, opt.FormatFastSeqHeader(), c.Skip).Bytes())
+				}
+			}
+		}
+	}); crash != "" {
+		kind := crash
+		if i := strings.Index(kind, ":"); i >= 0 {
+			kind = kind[:i]
+		}
+		return "control-run/reference-formatting-" + kind, "building the input batches again and formatting them one by one (the reference of the comparison) dies: " + crash
 	}
 	switch format {
 	case "fasta", "fastq":
@@ -755,15 +842,6 @@ func c04contentAs(c c04case, text []byte, mate bool, format string) (string, str
 				}
 			}
 			want = kept
-		}
-		var ref bytes.Buffer
-		opt := MakeOptions(nil)
-		for _, b := range batches { // increasing batch number
-			if format == "fasta" {
-				ref.Write(FormatFastaBatch(b, opt.FormatFastSeqHeader(), c.Skip).Bytes())
-			} else {
-				ref.Write(FormatFastqBatch(b, opt.FormatFastSeqHeader(), c.Skip).Bytes())
-			}
 		}
 		var got []string
 		ok := true
@@ -1002,7 +1080,11 @@ func c04checkFile(c c04case) (fails [][3]string, problem string) {
 			fails = append(fails, [3]string{which + f, d, "history"})
 		}
 	}
-	one(obs.r1, "", false)
+	if obs.r1missing != "" {
+		fails = append(fails, [3]string{"file-missing", "the output file cannot be read when WaitForLastPipe returned: " + obs.r1missing, "file"})
+	} else {
+		one(obs.r1, "", false)
+	}
 	if c.Paired {
 		if !obs.r2exists {
 			fails = append(fails, [3]string{"R2:file-missing", "the file of the paired reads does not exist", "file"})
@@ -1046,8 +1128,6 @@ func c04valueClass(v string) string {
 // that a panic or a log.Fatal of the formatter is an observed outcome instead of the death of the
 // shard. Returns the concatenated document as the writer would frame it.
 func c04preflight(c c04case) (doc []byte, crash string) {
-	batches, _, _ := c04batches(c)
-	opt := MakeOptions(c04caseOpts(c))
 	done := make(chan struct{})
 	go func() {
 		defer close(done)
@@ -1060,6 +1140,8 @@ func c04preflight(c c04case) (doc []byte, crash string) {
 				}
 			}
 		}()
+		batches, _, _ := c04batches(c)
+		opt := MakeOptions(c04caseOpts(c))
 		var buf bytes.Buffer
 		switch c.Writer {
 		case "json":
